@@ -167,7 +167,28 @@ def gen_request(r, v, weights=None):
     return req, agent
 
 
+def gen_confusable_plan(r):
+    """titles that collide when glued together with a separator, differ only in case or surrounding blanks, or are prefixes of one another:
+    whatever keys the implementation builds from titles, the edges must be exactly the ones named"""
+    sep = r.pick(["->", "→", ":", "|", ",", " ", "/", "-", "=>", "\t", "."])
+    fam = r.pick(["glue", "glue", "case", "prefix"])
+    if fam == "glue":
+        a, b, c = r.pick([("A", "B", "C"), ("x", "y", "z"), ("1", "2", "3")])
+        tasks = [{"title": a, "after": [b + sep + c]}, {"title": b + sep + c}, {"title": a + sep + b, "after": [c]}, {"title": c}]
+        if r.p(50):
+            tasks.append({"title": a + sep + b + sep + c, "after": [a, c]})
+    elif fam == "case":
+        tasks = [{"title": "build"}, {"title": "Build", "after": ["build"]}, {"title": "build ", "after": ["Build"]}, {"title": " build", "after": ["build", "build "]}]
+    else:
+        tasks = [{"title": "ab"}, {"title": "a", "after": ["ab"]}, {"title": "b", "after": ["a"]}, {"title": "abab", "after": ["ab", "b"]}]
+    if r.p(50):
+        r_ = list(tasks); tasks = [r_.pop(r.n(len(r_))) for _ in range(len(r_))]
+    return {"title": "Plan confusable " + fam, "tasks": tasks}
+
+
 def gen_plan(r):
+    if r.p(18):
+        return gen_confusable_plan(r)
     n = r.weighted([(1, 15), (2, 25), (3, 25), (4, 20), (6, 15)])
     titles = ["step %d %s" % (i, r.pick(["α", "b", "c"])) for i in range(n)]
     tasks = []
